@@ -284,12 +284,12 @@ class Slice(object):
                     d = deque(maxlen=-start)
                     stop_missed = False
                     for val in flow:
+                        d.append(val)
+                        ind += 1
                         # we know that we'll never yield anything
                         # because stop is too small.
                         if ind >= stop - start:
                             return
-                        d.append(val)
-                        ind += 1
                     # deque is filled, flow is finished.
                     # we begin again from the start of the deque.
                     ind -= len(d)
